@@ -805,12 +805,12 @@ func runC18(t *testing.T, c c18Case, st *drv.Stats) (fail *drv.Failure) {
 	// derive from the reference the largest covered request (must be permitted), that
 	// request with one uncovered object inserted (must be denied), a lone uncovered
 	// object and the empty request.
-	battery := func(what string, salt int) *drv.Failure {
+	battery := func(what string, salt, focus int) *drv.Failure {
 		for _, v := range views() {
 			for subj := 0; subj < c18Subjects; subj++ {
 				ps := v.st.policies(subj)
 				acts := []int{(salt + subj) % len(c18Actions)}
-				if len(ps) > 0 || len(v.st.stale(subj)) > 0 {
+				if len(ps) > 0 || len(v.st.stale(subj)) > 0 || subj == focus {
 					acts = []int{0, 1, 2, 3, 4}
 				}
 				for _, act := range acts {
@@ -904,7 +904,7 @@ func runC18(t *testing.T, c c18Case, st *drv.Stats) (fail *drv.Failure) {
 		return nil
 	}
 
-	if f := battery("initial", 0); f != nil {
+	if f := battery("initial", 0, -1); f != nil {
 		return f
 	}
 	var drawn []c18Op
@@ -1136,12 +1136,11 @@ func runC18(t *testing.T, c c18Case, st *drv.Stats) (fail *drv.Failure) {
 				}
 			}
 		}
-		if os.Getenv("VERIF_C18_DEBUG") != "" {
-			keys, kerr := w.svc.Policy.ResolveSubjects(ctx, tx, c18SubjIDs[0])
-			pp, perr := w.svc.RetrievePoliciesForSubject(ctx, c18SubjIDs[0], tx)
-			fmt.Fprintf(os.Stderr, "DEBUG %s: resolve=%v err=%v policies=%d err=%v\n", what, keys, kerr, len(pp), perr)
+		focus := -1
+		if op.K == "assign" || op.K == "unassign" || op.K == "defsubj" {
+			focus = op.S
 		}
-		if f := battery(what, op.Salt); f != nil {
+		if f := battery(what, op.Salt, focus); f != nil {
 			return f
 		}
 		for _, rq := range drawn {
